@@ -386,6 +386,8 @@ def run(chk):
         c04.evaluate(sub, v, ("_FFT",))
         c14.check_extraction(sub, v, rule="R4")
         c11.check_monomial(sub, v, "torusPolynomialMulByXai", "coefsT", False)
+        c11.check_monomial(sub, v, "torusPolynomialMulByXaiMinusOne", "coefsT", True)
+        c14.check_tlwe_monomial(sub, v)          # the (X^ai - 1) step of every CMux, on all k+1 components of the accumulator
         # ---------------- R5 a gate is a function of its arguments: no function-local static of the gates or of the code they
         # reach is initialised from run-time values (it would keep the value of the first call, e.g. the first key's parameters)
         from sa.symexec import run_function as _run, Hooks as _Hooks, flat as _flat
